@@ -93,14 +93,47 @@ struct LoopRec {
     expr: Option<(usize, usize)>,
 }
 
+struct ClosureRec {
+    // (pat_start, pat_end) of every non-identifier parameter, body span
+    pats: Vec<(usize, usize)>,
+    body: (usize, usize),
+    start: usize,
+    block: bool,
+}
+
 struct LoopVisitor<'a> {
     src: &'a Src,
     loops: Vec<LoopRec>,
+    closures: Vec<ClosureRec>,
 }
 
 impl<'a, 'ast> Visit<'ast> for LoopVisitor<'a> {
     fn visit_item_fn(&mut self, _i: &'ast syn::ItemFn) {
         // nested fn items are reported separately
+    }
+    fn visit_expr_closure(&mut self, e: &'ast syn::ExprClosure) {
+        let mut pats = vec![];
+        for p in &e.inputs {
+            let simple = match p {
+                syn::Pat::Ident(pi) => pi.subpat.is_none() && pi.by_ref.is_none(),
+                syn::Pat::Type(pt) => matches!(&*pt.pat, syn::Pat::Ident(pi) if pi.subpat.is_none() && pi.by_ref.is_none()),
+                _ => false,
+            };
+            if !simple {
+                let sp = match p {
+                    syn::Pat::Type(pt) => pt.pat.span(),
+                    _ => p.span(),
+                };
+                pats.push(self.src.span(sp));
+            }
+        }
+        self.closures.push(ClosureRec {
+            pats,
+            body: self.src.span(e.body.span()),
+            start: self.src.span(e.span()).0,
+            block: matches!(&*e.body, syn::Expr::Block(_)),
+        });
+        syn::visit::visit_expr_closure(self, e);
     }
     fn visit_expr_for_loop(&mut self, e: &'ast syn::ExprForLoop) {
         let (s, en) = self.src.span(e.span());
@@ -250,9 +283,11 @@ impl<'a> Out<'a> {
             let mut lv = LoopVisitor {
                 src: self.src,
                 loops: vec![],
+                closures: vec![],
             };
             lv.visit_block(b);
             lv.loops.sort_by_key(|l| l.start);
+            lv.closures.sort_by_key(|c| c.start);
             let ls: Vec<String> = lv
                 .loops
                 .iter()
@@ -275,6 +310,15 @@ impl<'a> Out<'a> {
                 })
                 .collect();
             let _ = write!(r, ",\"loops\":[{}]", ls.join(","));
+            let cs: Vec<String> = lv
+                .closures
+                .iter()
+                .map(|c| {
+                    let ps: Vec<String> = c.pats.iter().map(|(a, b)| format!("[{},{}]", a, b)).collect();
+                    format!("{{\"pats\":[{}],\"body\":[{},{}],\"start\":{},\"block\":{}}}", ps.join(","), c.body.0, c.body.1, c.start, c.block)
+                })
+                .collect();
+            let _ = write!(r, ",\"closures\":[{}]", cs.join(","));
         }
         r.push('}');
         self.recs.push(r);
